@@ -31,7 +31,13 @@ class WaitFacts:
 
 
 def msg_terms(st: PState, prefix: str) -> List[str]:
-    return [v for _k, v in st.env if v.startswith(prefix)]
+    """the term(s) standing for the received message — the term itself, not texts that merely start with it
+    (`msg·4.params.get('total')`, what a local read off the message is known as)"""
+    import re
+
+    vals = [v for _k, v in st.env if v.startswith(prefix)]
+    pure = [v for v in vals if re.fullmatch(re.escape(prefix) + r"\d+(\u00b7[0-9a-f]+)?", v)]
+    return pure or vals
 
 
 def analyse(P: Project) -> WaitFacts:
